@@ -282,3 +282,75 @@ func (g *Graph) ReachableFromAvoiding(v, avoid int) []bool {
 	}
 	return seen
 }
+
+// failureReturnsError reports whether a non-nil error result of call (bound by the enclosing
+// assignment or if-initialiser) leads only to returns whose last result is not nil: some branch tests
+// that error variable, no write to it lies between the call and the test, and every return reachable
+// from the test's non-nil edge returns an error. The shape of the statement (if-init or separate
+// assignment, == or != with an else) does not matter.
+func (f *Func) failureReturnsError(call *ast.CallExpr) bool {
+	as, ok := f.ParentOf(call).(*ast.AssignStmt)
+	if !ok || len(as.Rhs) != 1 {
+		return false
+	}
+	errObj := f.ObjOf(as.Lhs[len(as.Lhs)-1])
+	if errObj == nil {
+		return false
+	}
+	g := f.Graph()
+	cv := g.VertexOf(call)
+	for _, ev := range g.condVertices() {
+		cond := g.node[ev-1].(ast.Expr)
+		if !g.Dominates(cv, ev-1) {
+			continue
+		}
+		for k := 0; k < 2; k++ {
+			var atoms []Atom
+			splitAtoms(cond, k == 0, &atoms)
+			says := false
+			for _, a := range atoms {
+				if AtomSaysNil(a, false, func(e ast.Expr) bool { return f.ObjOf(e) == errObj }) {
+					says = true
+				}
+			}
+			if !says || g.writtenBetween(errObj, cv, ev-1) {
+				continue
+			}
+			seen, _ := g.reach([]int{g.succ[ev][k]}, nil, nil)
+			seen[g.succ[ev][k]] = true
+			okAll, n := true, 0
+			for _, x := range g.Exits {
+				if !seen[x] {
+					continue
+				}
+				n++
+				r, isR := g.node[x].(*ast.ReturnStmt)
+				if !isR || len(r.Results) == 0 || isNilIdent(r.Results[len(r.Results)-1]) {
+					okAll = false
+				}
+			}
+			if okAll && n > 0 {
+				return true
+			}
+		}
+	}
+	return false
+}
+
+// writtenBetween: some assignment to obj other than the one at vertex from lies on a path from → to.
+func (g *Graph) writtenBetween(obj types.Object, from, to int) bool {
+	after := g.ReachableFrom(from)
+	for _, w := range Writes(g.F.Body, false) {
+		if g.F.ObjOf(w.LHS) != obj {
+			continue
+		}
+		wv := g.VertexOf(w.Stmt)
+		if wv < 0 || wv == from || !after[wv] {
+			continue
+		}
+		if wv == to || g.ReachableFrom(wv)[to] {
+			return true
+		}
+	}
+	return false
+}
